@@ -406,6 +406,19 @@ func runC03(r *vk.Run) {
 					body += "\n"
 				}
 				cs.Frames = append(cs.Frames, Frame{Type: byte(1 + rng.Intn(2)), TS: ts, Body: body})
+				if rng.Chance(1, 5) {
+					// the same bytes at the same instant again (stdout and stderr, a blank line twice): two records
+					cs.Frames = append(cs.Frames, Frame{Type: byte(1 + rng.Intn(2)), TS: ts, Body: body})
+					j++
+				}
+			}
+			if i > 0 && len(cs.Frames) > 0 && len(inv[0].Frames) > 0 && rng.Chance(1, 4) {
+				cs.Frames[0] = Frame{Type: 1, TS: inv[0].Frames[0].TS, Body: inv[0].Frames[0].Body} // and the same record in two containers
+				for k := 1; k < len(cs.Frames); k++ {
+					if cs.Frames[k].TS < cs.Frames[0].TS {
+						cs.Frames[k].TS = cs.Frames[0].TS
+					}
+				}
 			}
 			inv = append(inv, cs)
 		}
